@@ -163,6 +163,54 @@ def run_driver(lines, timeout=600):
     return r.stdout.split("\n")
 
 
+class DriverSession:
+    """a Lean driver process kept alive across batches of multi-line requests: its engine cache (the (5,5) angular tables take
+    20 s to build) then serves every batch of a check, not only one.  Responses are complete when as many `end` lines have come
+    back as `begin` lines went in."""
+    def __init__(self):
+        self.p = None
+
+    def _start(self):
+        self.p = subprocess.Popen([DRIVER], stdin=subprocess.PIPE, stdout=subprocess.PIPE, stderr=subprocess.PIPE, text=True, bufsize=1)
+
+    def run(self, lines, timeout=7200):
+        import threading
+        if self.p is None or self.p.poll() is not None:
+            self._start()
+        n = sum(1 for l in lines if l.startswith("begin "))
+        p = self.p
+        def feed():
+            try:
+                p.stdin.write("\n".join(lines) + "\n"); p.stdin.flush()
+            except BrokenPipeError:
+                pass
+        th = threading.Thread(target=feed, daemon=True); th.start()
+        out, ends, t0 = [], 0, time.time()
+        while ends < n:
+            l = p.stdout.readline()
+            if not l:
+                err = p.stderr.read()[-2000:] if p.stderr else ""
+                self.p = None
+                raise RuntimeError("Lean driver ended after %d of %d requests: %s" % (ends, n, err))
+            l = l.rstrip("\n")
+            out.append(l)
+            if l == "end":
+                ends += 1
+            if time.time() - t0 > timeout:
+                p.kill(); self.p = None
+                raise RuntimeError("Lean driver timed out")
+        th.join()
+        return out
+
+    def close(self):
+        if self.p is not None and self.p.poll() is None:
+            try:
+                self.p.stdin.close(); self.p.wait(timeout=5)
+            except Exception:
+                self.p.kill()
+        self.p = None
+
+
 def known_findings():
     p = os.path.join(VERIF, "known_findings.json")
     if not os.path.exists(p):
